@@ -85,7 +85,10 @@ def gen_triple(rng, tier="quick"):
             isa.append([("op%s%d" % (c[:2], j)), c])
     if rng.random() < 0.5:
         rng.shuffle(isa)
-    regs = ["r%d" % i for i in range(rng.randint(2, 4))]
+    # register spellings differ in case between triples of one batch (r1 / R1, Rg1 / rG1): state leaking from one call
+    # into the next (a registry that outlives its call) then shows as an order-dependent result
+    style = rng.choice(["r%d", "R%d", "Rg%d", "rG%d"])
+    regs = [style % i for i in range(rng.randint(2, 4))]
     lines = []
     n = rng.randint(0, 10 if tier == "quick" else 16)
     for _ in range(n):
@@ -400,11 +403,16 @@ def run_case(case, tier="quick") -> dict:
         outs.append(evaluate(x, do_cli=(tier == "thorough" or i == 0)))
     # fresh interpreters with different hash seeds, whole batch per interpreter
     seeds = HASHSEEDS if tier == "thorough" else [HASHSEEDS[(case + j) % len(HASHSEEDS)] for j in range(2)]
-    for hs in seeds:
-        fr = fresh_runs(xs, hs)
+    for k, hs in enumerate(seeds):
+        # odd runs process the batch in reverse order: a result must not depend on what was called before it
+        if k % 2 == 1:
+            fr = list(reversed(fresh_runs(list(reversed(xs)), hs)))
+        else:
+            fr = fresh_runs(xs, hs)
         for i, (o, f) in enumerate(zip(outs, fr)):
             if o["props"]["C20"]["o"] is None and f != json.loads(json.dumps(o["base"], sort_keys=True)):
-                o["props"]["C20"]["o"] = f"a fresh interpreter with PYTHONHASHSEED={hs} returned a different result"
+                o["props"]["C20"]["o"] = (f"a fresh interpreter with PYTHONHASHSEED={hs} (batch processed in "
+                                          f"{'reverse' if k % 2 == 1 else 'forward'} order) returned a different result")
     # fold the batch into one record per triple: run.py wants one record per case, so emit the worst of the batch per
     # property but keep counts honest through `multi`
     results = []
